@@ -435,6 +435,8 @@ func c14Do(c *gen.Ctx, op string, in any) {
 		viol = out.BufViol
 	case tracer.VerifBigOut:
 		viol = out.Req.Array + out.Resp.Array
+	case c14H2Out:
+		viol = out.Viol
 	}
 	if viol != "" {
 		c14ArrayViols++
@@ -534,6 +536,8 @@ func runC14(c *gen.Ctx) error {
 			e.Count("random")
 		}
 	}
+	// (g) streams traced at the HTTP/2 connection level (emitUnfinished once or twice, ends in any order)
+	c14H2Cases(c)
 	// (f) bodies of 4 GiB and more (never written down: the same zeroed array again and again)
 	c14BigCases(c)
 	// (e) the middleware wiring: real TracingHandler (tracingResponseWriter) and TracingRoundTripper
